@@ -17,7 +17,7 @@ func init() {
 			"(Upgrade only from Init; TrafficRouting only after doCanaryUpgrade reported done or in a jump between steps of equal replicas; MetricsAnalysis only after DoTrafficRouting reported done; Paused after analysis; Ready only after doCanaryPaused reported done; next step only from Ready with steps left; Completed only from Ready with no steps left); " +
 			"(R2.1j) the jump compares the target step with the step that was current before the cursor moved; (R2.2) doCanaryUpgrade returns done only under spec-current, generation-observed, batch Ready and currentBatch+1 >= step; (R2.3) doCanaryPaused returns done only after the configured duration elapsed (or the 100% last-step shortcut); " +
 			"(R2.4) every handler that can make progress is called only under isRolloutPaused()==false and the Paused reason only flips back under !spec.paused; (R2.5) each gate function is reachable only through the switch edges of its own state.",
-		NotDecided: "that the persisted status is what the next reconcile reads (API semantics); the BatchRelease side of 'pods upgraded and ready' (C11); restart interleavings themselves — only that every advance re-derives its guard from persisted fields on every path.",
+		NotDecided:  "that the persisted status is what the next reconcile reads (API semantics); the BatchRelease side of 'pods upgraded and ready' (C11); restart interleavings themselves — only that every advance re-derives its guard from persisted fields on every path.",
 		Assumptions: []string{"facts are syntactic branch conditions over SSA terms; a guard that is present but semantically wrong (e.g. wrong arithmetic inside a predicate) is not detected"},
 	})
 }
